@@ -116,7 +116,7 @@ def run(ck: Check):
                 ck.disagree("gumbel_hard gradient differs from the gradient of the soft sample of the same draw", {"param": par},
                             signature={"layer": "dense", "param": par, "mode": mode, "what": "grad-ste"})
     # grad factor
-    for f in (0.5, 2.0, 3.0):
+    for f in (0.5, 2.0, 3.0, 1.3):
         layers = []
         for par in ("raw", "walsh"):
             layers.append(("dense", LogicDense(4, 5, device="cpu", parametrization=par, weight_init="random"), [3, 4]))
